@@ -235,6 +235,8 @@ register(PropertySpec(
              "(shared with C09) the evaluation is advanced AND closed with the mode switched off and its own context stack: user code suspended inside it is finalised in the evaluation's environment, not in the caller's block"),
         Rule("NO-SHARED-DEFAULT", _lazy("modes", "rule_no_shared_default"), 1,
              "no parameter default creates a mutable object (the context stack of an evaluation, an accumulator) that the body stores, hands on or changes: such an object is one for all calls"),
+        Rule("EXC-EXIT-ENV", _lazy("modes", "rule_exception_exit_env"), 2,
+             "what an evaluation that ended with an exception left suspended is finalised in the evaluation's own environment, not in the caller's block when the exception is released"),
     ],
     explanation="The mode is a context variable with a closed set of writers, so confinement is a pairing property over "
                 "all exits of the code that writes it. Decided on the CFG with exceptional and generator-suspension "
@@ -580,6 +582,8 @@ register(PropertySpec(
              "the true rows of a refinement are keyed by the variables of the branch it refines"),
         Rule("SELECT-EVERY-ROW", _lazy("ruletree", "rule_select_every_row"), 3,
              "a selector draws its conclusions for every row it hands on: no selection inside a row loop is guarded by a local carried from one row to the next (a 'first row' flag)"),
+        Rule("OR-LEFT-TOTAL", _lazy("logic", "rule_or_left_total"), 1,
+             "(shared with C18; recorded finding) an alternative is tried for every assignment for which the branch before it did not hold, also those for which that branch's condition yields no row at all (a flattened empty collection)"),
     ],
     explanation="Attaching a branch rewires the condition tree in place; evaluation follows the left/right fields, not "
                 "the graph edges, so a selector that is attached in the graph but not stored in its parent's operand slot "
